@@ -871,6 +871,11 @@ pub fn run_tbl(toks: &[&str]) -> String {
     let mut hs = Handles::default();
     out.push(format!("-,-,{},-", observe(&tab, first)));
     let mut dead = false;
+    // a twin: a second instance of the same table type fed the same program, call by call interleaved
+    // with the first — the two images must be identical (no state shared between instances, C14)
+    let mut twin = Tab::new(tname, oid, otab, orev, &ctor);
+    let mut hs2 = Handles::default();
+    let mut twin_ok = true;
     for op in &ops {
         // built twice: once to serialise alone, once to add.  The standalone serialisation is observed
         // on its own: an entry that serialises alone although the add call refuses it is reported as
@@ -898,6 +903,17 @@ pub fn run_tbl(toks: &[&str]) -> String {
             let raw = if in_table_only { ser(tab.aml())[before..].to_vec() } else { raw };
             (raw, h, refs)
         }));
+        if r.is_ok() && twin_ok {
+            let r2 = std::panic::catch_unwind(std::panic::AssertUnwindSafe(|| {
+                let e = build(op, &mut hs2);
+                hs2.resolved.clear();
+                twin.add(e, &mut hs2)
+            }));
+            match (&r, r2) {
+                (Ok((_, h, _)), Ok(h2)) => { if *h != h2 { twin_ok = false; } }
+                _ => { twin_ok = false; }
+            }
+        }
         match r {
             Ok((raw, h, refs)) => {
                 let hstr = h.map(|v| v.to_string()).unwrap_or_else(|| "-".to_string());
@@ -913,6 +929,10 @@ pub fn run_tbl(toks: &[&str]) -> String {
                 break;
             }
         }
+    }
+    if !dead {
+        if twin_ok && ser(twin.aml()) != ser(tab.aml()) { twin_ok = false; }
+        out.push(format!("twin={}", if twin_ok { "same" } else { "DIFF" }));
     }
     if dead {
         out.push("img=-".to_string());
